@@ -215,30 +215,30 @@ func (g *DependencyGraph) AddProviderDeferred(provider Provider) error {
 	}
 	node.Provider = provider
 
-	// Add edges based on dependencies
+	// Add edges based on dependencies. The node's edge list is replaced even
+	// when the provider has no dependencies: a provider that replaces an
+	// earlier one must not inherit its edges.
 	providerDeps := provider.GetDependencies()
-	if len(providerDeps) > 0 {
-		dependencies := make([]NodeKey, 0, len(providerDeps))
-		for _, dep := range providerDeps {
-			depKey := NodeKey{
-				Type:  dep.Type,
-				Key:   dep.Key,
-				Group: dep.Group,
-			}
-			dependencies = append(dependencies, depKey)
+	dependencies := make([]NodeKey, 0, len(providerDeps))
+	for _, dep := range providerDeps {
+		depKey := NodeKey{
+			Type:  dep.Type,
+			Key:   dep.Key,
+			Group: dep.Group,
+		}
+		dependencies = append(dependencies, depKey)
 
-			// Ensure dependency node exists (minimal allocation)
-			if _, exists := g.nodes[depKey]; !exists {
-				g.nodes[depKey] = &Node{
-					Key:          depKey,
-					Dependencies: make([]NodeKey, 0, 4),
-					Dependents:   make([]NodeKey, 0, 4),
-				}
+		// Ensure dependency node exists (minimal allocation)
+		if _, exists := g.nodes[depKey]; !exists {
+			g.nodes[depKey] = &Node{
+				Key:          depKey,
+				Dependencies: make([]NodeKey, 0, 4),
+				Dependents:   make([]NodeKey, 0, 4),
 			}
 		}
-		node.Dependencies = dependencies
-		g.edges[nodeKey] = dependencies
 	}
+	node.Dependencies = dependencies
+	g.edges[nodeKey] = dependencies
 
 	// Mark caches as dirty (defer degree updates to DetectCycles)
 	g.sortedNodesDirty = true
